@@ -5,11 +5,12 @@
   Fragment (everything else answers `unsupported`, which the driver prints as `skip`):
     literals (Bool/Long/String/EntityUID), the four variables, `&& || ! if` with the True/False singleton
     types and capability propagation, `== !=` (same-variable, literal and disjoint-entity-type folding,
-    strict LUB test), `< <= > >=` with the code's actual "each side comparable" test, `+ - *`, unary minus,
+    strict LUB test), `< <= > >=` (both sides the SAME comparable type), `+ - *`, unary minus,
     `has` / `.` on RECORD types with required/optional attributes and capabilities, set and record literals
     (LUB of element types, strict empty-set rule), `contains/containsAll/containsAny/isEmpty`, `like`,
     every extension function of `extFuncTypes` (constructors with the strict literal rule and
-    `validateExtensionValue`), unknown functions (incl. the zero-argument case that yields `Ty.nil`).
+    `validateExtensionValue`), unknown functions (rejected; `Ty.nil`, the type the unrepaired code gave a
+    zero-argument call of an unknown function, is no longer introduced by any rule of `typeOf`).
   Outside: `has`/`.` on entity types, `in`, `is`, `is..in`, `getTag`, `hasTag`, scopes other than
   `all` / `is T` (principal, resource) and `all` / `== uid` (action).
 
@@ -19,9 +20,12 @@
 
   `dom = false` is the Go algorithm.  `dom = true` additionally rejects what lies outside the domain
   of `C15_typeOf_sound_partial` (each is either a confirmed defect of the Go code or a part of the
-  proof not done): comparisons whose sides are not the SAME comparable type, attribute names containing
-  `'.'` in `has`/`.`, unknown functions, the permissive record LUB that drops an attribute, non-literal
-  constructor arguments, the same-variable rule for `context == context`.
+  proof not done): the permissive record LUB that drops an attribute, non-literal constructor arguments, the
+  same-variable rule for `context == context`.
+  (Comparisons of two DIFFERENT comparable types, unknown functions and attribute names containing `'.'` in
+  `has`/`.` used to be on this list; since the repairs of `comparison-mixed-comparable-types` and
+  `unknown-function-zero-args` the Go algorithm rejects the first two itself, and since the repair of
+  `capability-path-collision` capability keys are access paths compared structurally, so dotted names are harmless.)
 -/
 import CedarGo.Model.Validate.Types
 import CedarGo.Model.Policy
@@ -35,7 +39,8 @@ deriving DecidableEq, Repr, Inhabited
 
 abbrev TRes := Except TErr (Ty × Caps)
 
-/-- `typeOfValue` (it panics on set/record/extension values: C16, outside) -/
+/-- `typeOfValue` (set/record/extension VALUES — typed like the equivalent expressions since the repair of
+    `typeofvalue-non-entity-literal-panic`, see C16 — are outside the fragment) -/
 def typeOfValue (Γ : TEnv) : Value → Except TErr Ty
   | .bool true => .ok .tt
   | .bool false => .ok .ff
@@ -117,18 +122,19 @@ def argsOK : List Ty → List Ty → Bool
   | a :: as, s :: ss => isSubtypeArg a s && argsOK as ss
   | _, _ => false
 
-/-- `typeOfComparison` once both sides are type-checked: each side only has to be "comparable"
-    (a nil type skips the test); `dom`: both sides the SAME comparable type -/
-def cmpResult (dom : Bool) (caps : Caps) (rl rr : TRes) : TRes :=
+/-- `typeOfComparison` once both sides are type-checked (no error recorded): each side has to be
+    "comparable" (`expectComparable`: Long, datetime or duration) AND both sides must have the SAME
+    comparable type (`compareCedarType(lt, rt) == 0`).  (Before the repair of the finding
+    `comparison-mixed-comparable-types` only the first test existed.)  A `Ty.nil` operand is rejected:
+    the Go code no longer produces a nil type without recording an error (see `.call` below). -/
+def cmpResult (caps : Caps) (rl rr : TRes) : TRes :=
   match rl with
   | .error e => .error e
   | .ok (lt, _) =>
     match rr with
     | .error e => .error e
     | .ok (rt, _) =>
-      if dom then (if sameComparable lt rt then .ok (.bool, caps) else .error .reject)
-      else if (lt.isNil || isComparable lt) && (rt.isNil || isComparable rt) then .ok (.bool, caps)
-      else .error .reject
+      if sameComparable lt rt then .ok (.bool, caps) else .error .reject
 
 /-- `typeOfArith` -/
 def arithResult (caps : Caps) (rl rr : TRes) : TRes :=
@@ -262,11 +268,11 @@ def typeOf (dom : Bool) (Γ : TEnv) : Expr → Caps → TRes
         match equalityType dom Γ l r lt rt true with
         | .ok t => .ok (t, caps)
         | .error e => .error e
-  -- typeOfComparison: each side only has to be "comparable" (a nil type skips the test)
-  | .binop .lt l r, caps => cmpResult dom caps (typeOf dom Γ l caps) (typeOf dom Γ r caps)
-  | .binop .le l r, caps => cmpResult dom caps (typeOf dom Γ l caps) (typeOf dom Γ r caps)
-  | .binop .gt l r, caps => cmpResult dom caps (typeOf dom Γ l caps) (typeOf dom Γ r caps)
-  | .binop .ge l r, caps => cmpResult dom caps (typeOf dom Γ l caps) (typeOf dom Γ r caps)
+  -- typeOfComparison: both sides the same comparable type
+  | .binop .lt l r, caps => cmpResult caps (typeOf dom Γ l caps) (typeOf dom Γ r caps)
+  | .binop .le l r, caps => cmpResult caps (typeOf dom Γ l caps) (typeOf dom Γ r caps)
+  | .binop .gt l r, caps => cmpResult caps (typeOf dom Γ l caps) (typeOf dom Γ r caps)
+  | .binop .ge l r, caps => cmpResult caps (typeOf dom Γ l caps) (typeOf dom Γ r caps)
   -- typeOfArith
   | .binop .add l r, caps => arithResult caps (typeOf dom Γ l caps) (typeOf dom Γ r caps)
   | .binop .sub l r, caps => arithResult caps (typeOf dom Γ l caps) (typeOf dom Γ r caps)
@@ -304,8 +310,7 @@ def typeOf (dom : Bool) (Γ : TEnv) : Expr → Caps → TRes
     | .ok (t, _) =>
       match t with
       | .record attrs =>
-        if dom && !noDot a then .error .reject else
-        let p := exprVarName e
+        let p := exprCapPath e
         let caps' := if p.isEmpty then caps else caps.add p a
         -- hasResultType: absent ↦ False, required ↦ True, optional ↦ Bool (True when the capability is already held)
         match lookupAttr a attrs with
@@ -321,11 +326,10 @@ def typeOf (dom : Bool) (Γ : TEnv) : Expr → Caps → TRes
     | .ok (t, _) =>
       match t with
       | .record attrs =>
-        if dom && !noDot a then .error .reject else
         match lookupAttr a attrs with
         | none => .error .reject
         | some (aty, req) =>
-          let p := exprVarName e
+          let p := exprCapPath e
           if !req && (p.isEmpty || !caps.has p a) then .error .reject else .ok (aty, caps)
       | .entity _ => .error .unsupported
       | _ => .error .reject
@@ -347,9 +351,9 @@ def typeOf (dom : Bool) (Γ : TEnv) : Expr → Caps → TRes
   | .call fn args, caps =>
     match extFuncSig fn with
     | none =>
-      -- zero signature: 0 expected arguments, nil return type
-      if dom then .error .reject else
-      if args.length != 0 then .error .reject else .ok (.nil, caps)
+      -- unknown function: "undefined extension function" (before the repair of `unknown-function-zero-args`
+      -- the zero signature — 0 expected arguments, nil return type, no error — was used)
+      .error .reject
     | some (ctor, sigArgs, ret) =>
       if args.length != sigArgs.length then .error .reject else
       if ctor && (Γ.strict || dom) && !(args.all isLitExpr) then .error .reject else
